@@ -17,9 +17,57 @@ ATTRS = ["filter", "flatten", "test", "test_all", "from_spec", "is_like", "to_js
          "to_part_specs", "parts", "get_data", "is_concrete", "from_str", "resolve_implicit_types", "copy", "nope", "foo"]
 
 
+def near_miss(rng, name, valid):
+    """a name one slip away from a valid one (trailing / leading underscore or blank, a doubled or dropped letter,
+    '-' for '_', a plural) that is NOT itself valid (compared lower-cased, as the parsers do)"""
+    for _ in range(20):
+        j = rng.randrange(len(name))
+        cand = rng.choice([name + "_", name + "__", "_" + name, name + " ", " " + name, name[:j] + name[j] + name[j:],
+                           name[:j] + name[j + 1:], name.replace("_", "-"), name + "s", name + ".", name.replace("_", " "),
+                           name.replace("_", ""), name + "_" + name[-1]])
+        if cand and cand.lower() not in valid and cand.lower().strip(".") not in valid:
+            return cand
+    return name + "_x"
+
+
+def valid_names():
+    fns = set(f.lower() for f in gen.ALLFNS) | {a for v in gd.ALIASES.values() for a in v}
+    return {"datum": {"value", "key", "index"}, "pre": {"length", "len", "dtype", "type"}, "fn": fns,
+            "suffix": {"length", "len", "dtype", "type", "map_keys", "map_values", "first", "last", "single", "all", "any",
+                       "map_items", "list_items"},
+            "ptype": {"map_value", "list_value", "map_or_list_value"}, "parg": {"type", "key", "index", "value", "condition", "label"},
+            "cast": {"str", "bool", "int"}, "tname": {"int", "float", "str", "list", "dict", "bool", "map", "none", "path", "tuple"}}
+
+
 def inject(rng):
     """(op, spec, class label)"""
-    k = rng.randrange(26)
+    k = rng.randrange(34)
+    if k >= 26:
+        V = valid_names()
+        if k == 26:
+            nm = near_miss(rng, rng.choice(sorted(V["fn"])), V["fn"] | V["pre"])
+            return "parse_cond", {rng.choice(["value", "key", "value.length", "value.dtype"]) + "." + nm: rng.choice([1, None, [1]])}, "near-miss callable name"
+        if k == 27:
+            nm = near_miss(rng, rng.choice(sorted(V["datum"])), V["datum"] | {"path"})
+            return "parse_cond", {nm + ".equal_to": 1}, "near-miss datum kind"
+        if k == 28:
+            nm = near_miss(rng, rng.choice(sorted(V["pre"])), V["pre"] | V["fn"])
+            return "parse_cond", {"value." + nm + ".equal_to": 1}, "near-miss pre-processor"
+        if k == 29:
+            nm = near_miss(rng, rng.choice(sorted(V["suffix"])), V["suffix"])
+            return "parse_path", {"path." + nm: ["a"]}, "near-miss path suffix"
+        if k == 30:
+            nm = near_miss(rng, rng.choice(sorted(V["ptype"])), V["ptype"])
+            return "parse_part", {"type": nm}, "near-miss part type"
+        if k == 31:
+            nm = near_miss(rng, rng.choice(sorted(V["parg"] - {"type"})), V["parg"] | V["datum"])
+            return "parse_part", {"type": rng.choice(["map_value", "list_value", "map_or_list_value"]), nm: {"value.eq": 1}}, "near-miss part argument"
+        if k == 32:
+            nm = near_miss(rng, rng.choice(sorted(V["cast"])), V["cast"] | V["tname"])
+            return "parse_rule", {"path": ["a"], "condition": {"value.eq": 1}, "cast": rng.choice([{"str": nm}, {nm: "int"}])}, "near-miss cast type"
+        nm = near_miss(rng, rng.choice(["int", "float", "str", "list", "dict", "bool"]), V["tname"])
+        return "parse_cond", {rng.choice(["value.dtype.equal_to", "value.type.eq"]): nm} if rng.random() < 0.5 else \
+            {rng.choice(["value.dtype.in", "value.is_instance"]): ["int", nm]}, "near-miss type name"
     leaf = lambda: gd.spell_leaf(rng, gd.spec_leaf_recipe(rng, [("value", "none")]))   # noqa: E731
     if k == 0:
         return "parse_cond", {rng.choice(["valuex", "foo", "values", "val", "path"]) + ".equal_to": 1}, "unknown datum kind"
